@@ -22,7 +22,7 @@ from .. import common, demog_corr as dc
 from ..common import Result, Violation, f2h
 
 META = dict(
-    level='Lean theorems over the model of PopulationSizeHistory._change_time_measure (searchsorted index + cumulative step), for every history the constructor accepts and every t >= 0, in exact arithmetic: to_coalescent equals the explicit piecewise integral of 1/(2N); to_natural(to_coalescent t) = t and to_coalescent(to_natural c) = c; both maps strictly increasing, bi-Lipschitz (hence continuous), left/right formulas agree at every break, fix 0; init(as_dict()) rebuilds the same object; gamma_to_natural moment matching is exact and for one epoch returns (shape, rate/(2N)) from Gamma(s+1)=s*Gamma(s), P(a,0)=0, P(a,inf)=1 as hypotheses. Full in exact arithmetic. Model tied to the real class bit-for-bit at Float on generated histories (1-8 epochs, sizes/breaks 1e-3..1e9, times incl. exact breaks). Outside: floating-point cancellation (round trips lose digits when adjacent sizes differ by many orders of magnitude - measured, bounded by the conditioning of the formula), accuracy of scipy special functions, multi-epoch gamma_to_natural only by quadrature oracle.',
+    level='Lean theorems over the model of PopulationSizeHistory._change_time_measure (searchsorted index + cumulative step), for every history the constructor accepts and every t >= 0, in exact arithmetic: to_coalescent equals the explicit piecewise integral of 1/(2N); to_natural(to_coalescent t) = t and to_coalescent(to_natural c) = c; both maps strictly increasing, bi-Lipschitz (hence continuous), left/right formulas agree at every break, fix 0; init(as_dict()) rebuilds the same object; gamma_to_natural moment matching is exact and for one epoch returns (shape, rate/(2N)) from Gamma(s+1)=s*Gamma(s), P(a,0)=0, P(a,inf)=1 as hypotheses. Full in exact arithmetic. Model tied to the real class bit-for-bit at Float on generated histories (1-8 epochs, sizes/breaks 1e-3..1e9, times incl. exact breaks). Known finding F15: gamma_to_natural overflows (nan / [0,0] / OverflowError) for shape >= ~170 or rate**(shape+2) beyond the double range. Outside: floating-point cancellation (round trips lose digits when adjacent sizes differ by many orders of magnitude - measured, bounded by the conditioning of the formula), accuracy of scipy special functions, multi-epoch gamma_to_natural only by quadrature oracle.',
     note='Lean kernel + {propext, Classical.choice, Quot.sound}; sampled bit-exact correspondence at Float, conditioned tolerance at Rat; numpy searchsorted/cumsum and scipy gamma/gammainc by contract',
     technique='refinement of index+cumulative-step code to a recursive integral spec, round trip by induction on the epoch list; bit-exact model/implementation correspondence',
     ref='§3 C17',
@@ -202,22 +202,28 @@ def gamma_case(rng):
     if len(ps) > 7:            # numpy's sum is pairwise-unrolled from 8 elements on: the model sums sequentially
         ps, tb = ps[:7], tb[:6]
     h = dc.make_history(ps, tb)
-    shape = float(dc.loguniform(rng, 0.2, 60))
+    tight = rng.random() < 0.15
+    shape = float(rng.choice([120.0, 150.0, 170.0, 172.0, 200.0, 400.0])) if tight else float(dc.loguniform(rng, 0.2, 60))
     # rate chosen so that the gamma's mass is spread over the epochs
     span = float(h.coalescent_breaks[-1]) if len(ps) > 1 else 1.0
     rate = float(shape / (span * dc.loguniform(rng, 0.05, 5))) if span > 0 else 1.0
-    C = float(np.exp(shape * np.log(rate) - sp.loggamma(shape)))
-    gam = [float(sp.gamma(shape + k)) for k in range(3)]
-    pw = [float(rate ** (shape + k)) for k in range(3)]
-    P = [[float(sp.gammainc(shape + k, rate * x)) for x in h.coalescent_breaks] for k in range(3)]
-    Pinf = [float(sp.gammainc(shape + k, np.inf)) for k in range(3)]
-    return dict(ps=ps, tb=tb, shape=shape, rate=rate, C=C, gam=gam, pw=pw, P=P, Pinf=Pinf, mode=mode), h
+    with np.errstate(all="ignore"):      # the special-function values exactly as the code computes them (inf/0 included)
+        C = float(np.exp(shape * np.log(rate) - sp.loggamma(shape)))
+        gam = [float(sp.gamma(shape + k)) for k in range(3)]
+        pw = [float(np.float64(rate) ** (shape + k)) for k in range(3)]
+        P = [[float(sp.gammainc(shape + k, rate * x)) for x in h.coalescent_breaks] for k in range(3)]
+        Pinf = [float(sp.gammainc(shape + k, np.inf)) for k in range(3)]
+    overflow = not (np.isfinite(gam[2]) and np.isfinite(pw[2]) and pw[0] > 0 and np.isfinite(C) and C > 0)
+    return dict(ps=ps, tb=tb, shape=shape, rate=rate, C=C, gam=gam, pw=pw, P=P, Pinf=Pinf, mode=mode, tight=tight,
+                overflow=overflow), h
 
 
 def quad_moments(h, shape, rate):
     """mean and variance of to_natural(X), X ~ Gamma(shape, rate), by numerical quadrature per epoch"""
+    import warnings
     import scipy.integrate as si
     import scipy.stats as st
+    warnings.simplefilter("ignore", si.IntegrationWarning)      # slow convergence is reflected in the tolerance, not in the log
     cb = list(h.coalescent_breaks) + [np.inf]
     dist = st.gamma(a=shape, scale=1 / rate)
     m1 = m2 = 0.0
@@ -246,8 +252,34 @@ def stage_gamma(ctx, res, stats, n_cases, batch):
         res.evaluations += 1
         replay = dict(kind="gamma", ps=[f2h(x) for x in c["ps"]], tb=[f2h(x) for x in c["tb"]],
                       shape=f2h(c["shape"]), rate=f2h(c["rate"]))
-        with np.errstate(all="ignore"):
-            got = h.gamma_to_natural(c["shape"], c["rate"])
+        stats["gamma_overflow_inputs"] += int(c["overflow"])
+        try:
+            with np.errstate(all="ignore"):
+                got = h.gamma_to_natural(np.float64(c["shape"]), np.float64(c["rate"]))     # numpy scalars, as prior.py passes them
+            raised = None
+        except Exception as e:  # noqa: BLE001
+            got, raised = np.array([np.nan, np.nan]), f"{type(e).__name__}: {e}"
+        try:
+            with np.errstate(all="ignore"):
+                h.gamma_to_natural(c["shape"], c["rate"])                                    # python floats
+        except OverflowError as e:
+            raised = raised or f"OverflowError: {e}"
+        except Exception as e:  # noqa: BLE001
+            raised = raised or f"{type(e).__name__}: {e}"
+        bad_value = not (np.all(np.isfinite(got)) and got[0] > 0 and got[1] > 0)
+        if raised or bad_value:
+            if c["overflow"]:
+                # Gamma(shape+2) or rate**(shape+2) (or C) leaves the double range although C*Gamma(s+k)/rate**(s+k) is harmless
+                res.violations.append(Violation(
+                    "gamma-to-natural-overflow",
+                    f"gamma_to_natural(shape={c['shape']}, rate={c['rate']!r}) -> {raised or list(got)} (Gamma(shape+2)={c['gam'][2]!r}, "
+                    f"rate**(shape+2)={c['pw'][2]!r}, C={c['C']!r})", replay))
+            else:
+                res.violations.append(Violation(
+                    "gamma-to-natural-degenerate", f"gamma_to_natural(shape={c['shape']}, rate={c['rate']!r}) -> {raised or list(got)} "
+                    f"with all special-function values in range", replay))
+            if raised:
+                continue
         m = batch.get(i)
         if m is None:
             res.corr_failures.append(Violation("model-rejects-gamma-case", "bad-op on gamma case", replay, "B"))
@@ -265,6 +297,8 @@ def stage_gamma(ctx, res, stats, n_cases, batch):
                     f"gamma-model-differs-{name}", f"gamma_to_natural new_{name} = {b!r}, Lean model on the same scipy "
                     f"values gives {a!r}", replay, "B"))
                 break
+        if bad_value:
+            continue
         # C: statement. constant size -> exact rescaled gamma; otherwise moments by quadrature
         if len(c["ps"]) == 1:
             want = (c["shape"], c["rate"] / (2 * c["ps"][0]))
@@ -369,7 +403,8 @@ def _oracle_history(res, stats, c):
 def run(ctx):
     res = Result()
     stats = dict(epochs={}, modes={}, times=0, hyp_initOk=0, worst_fwd_ratio=0.0, ctm_pre_true=0, ctm_pre_false=0,
-                 invalid={}, gamma_worst_rel=0.0, gamma_const=0, gamma_quad=0, gamma_degenerate=0, rt_points=0, rt_tight=0)
+                 invalid={}, gamma_worst_rel=0.0, gamma_const=0, gamma_quad=0, gamma_degenerate=0, gamma_overflow_inputs=0,
+                 rt_points=0, rt_tight=0)
     cases = dc.make_cases(ctx, ctx.n(250, 5000))
     batch = dc.Batch()
     # each stage is a generator: first half queues its cases, second half (after the single driver run) compares
